@@ -3,8 +3,799 @@
 -/
 import BitstringModel.Model.C05
 import BitstringModel.Proofs.Basic
+import BitstringModel.Proofs.C05_Codec
+import Mathlib.Tactic.Ring
+import Mathlib.Tactic.Linarith
 
 namespace BM.C05
 open BM
+
+/-! ### findChar -/
+
+theorem findChar_append_not_mem (c : Char) (a rest : Str) (h : c ∉ a) :
+    findChar c (a ++ c :: rest) = some a.length := by
+  induction a with
+  | nil => simp [findChar]
+  | cons x xs ih =>
+    have hx : x ≠ c := by intro e; exact h (by simp [e])
+    have hxs : c ∉ xs := by intro e; exact h (by simp [e])
+    simp [findChar, hx, ih hxs]
+
+theorem findChar_none (c : Char) (a : Str) (h : c ∉ a) : findChar c a = none := by
+  induction a with
+  | nil => rfl
+  | cons x xs ih =>
+    have hx : x ≠ c := by intro e; exact h (by simp [e])
+    have hxs : c ∉ xs := by intro e; exact h (by simp [e])
+    simp [findChar, hx, ih hxs]
+
+/-! ### matchClose on balanced text -/
+
+/-- `s` is skipped by the bracket counter whatever the number of hanging brackets -/
+def Bal (s : Str) : Prop :=
+  ∀ (rest : Str) (c p : Nat), 1 ≤ c → matchClose (s ++ rest) c p = matchClose rest c (p + s.length)
+
+theorem Bal_nil : Bal [] := by intro rest c p _; simp
+
+theorem Bal_append (s t : Str) (hs : Bal s) (ht : Bal t) : Bal (s ++ t) := by
+  intro rest c p hc
+  rw [List.append_assoc, hs _ c p hc, ht _ c _ hc]
+  simp [Nat.add_assoc]
+
+theorem Bal_char (x : Char) (h1 : x ≠ '(') (h2 : x ≠ ')') : Bal [x] := by
+  intro rest c p hc
+  simp only [List.singleton_append, matchClose, h1, h2, if_false, List.length_singleton]
+  have : c ≠ 0 := by omega
+  simp [this]
+
+theorem Bal_noparen (s : Str) (h : ∀ x ∈ s, x ≠ '(' ∧ x ≠ ')') : Bal s := by
+  induction s with
+  | nil => exact Bal_nil
+  | cons x xs ih =>
+    have := Bal_append [x] xs (Bal_char x (h x (by simp)).1 (h x (by simp)).2) (ih (fun y hy => h y (by simp [hy])))
+    simpa using this
+
+theorem Bal_paren (s : Str) (hs : Bal s) : Bal ('(' :: s ++ [')']) := by
+  intro rest c p hc
+  have e : ('(' :: s ++ [')']) ++ rest = '(' :: (s ++ ')' :: rest) := by simp
+  rw [e, matchClose]
+  simp only [if_true]
+  have h1 : c + 1 ≠ 0 := by omega
+  simp only [h1, if_false]
+  rw [hs _ (c + 1) (p + 1) (by omega), matchClose]
+  have h2 : (')' : Char) ≠ '(' := by decide
+  simp only [h2, if_false, if_true, Nat.add_sub_cancel]
+  have h3 : c ≠ 0 := by omega
+  simp only [h3, if_false]
+  congr 1
+  simp; omega
+
+/-- the closing bracket of a balanced inner text is found -/
+theorem matchClose_inner (inner B : Str) (p : Nat) (h : Bal inner) :
+    matchClose (inner ++ ')' :: B) 1 p = some (p + inner.length) := by
+  rw [h _ 1 p (by omega), matchClose]
+  have h2 : (')' : Char) ≠ '(' := by decide
+  simp [h2]
+
+theorem matchClose_open (rest : Str) (c p : Nat)
+    (hopen : ∀ k, k ≤ rest.length → (rest.take k).count ')' < (rest.take k).count '(' + c) :
+    matchClose rest c p = none := by
+  induction rest generalizing c p with
+  | nil => rfl
+  | cons x xs ih =>
+    have h1 := hopen 1 (by simp)
+    simp only [List.take_succ_cons, List.take_zero] at h1
+    rw [matchClose]
+    by_cases hx1 : x = '('
+    · subst hx1
+      simp only [if_true]
+      have : c + 1 ≠ 0 := by omega
+      simp only [this, if_false]
+      apply ih
+      intro k hk
+      have := hopen (k + 1) (by simp; omega)
+      simp only [List.take_succ_cons] at this
+      simp [List.count_cons] at this ⊢
+      omega
+    · by_cases hx2 : x = ')'
+      · subst hx2
+        simp only [hx1, if_false, if_true]
+        simp [List.count_cons] at h1
+        have : c - 1 ≠ 0 := by omega
+        simp only [this, if_false]
+        apply ih
+        intro k hk
+        have := hopen (k + 1) (by simp; omega)
+        simp only [List.take_succ_cons] at this
+        simp [List.count_cons] at this ⊢
+        omega
+      · simp only [hx1, hx2, if_false]
+        simp [List.count_cons, hx1, hx2, Ne.symm hx1, Ne.symm hx2] at h1
+        have : c ≠ 0 := by omega
+        simp only [this, if_false]
+        apply ih
+        intro k hk
+        have := hopen (k + 1) (by simp; omega)
+        simp only [List.take_succ_cons] at this
+        simp [List.count_cons, hx1, hx2, Ne.symm hx1, Ne.symm hx2] at this ⊢
+        omega
+
+theorem expandFuel_error (f : Nat) (s : Str) (e : Err) (h : expandStep s = .error e) :
+    expandFuel (f + 1) s = .error e := by rw [expandFuel, h]
+
+theorem expandFuel_none (f : Nat) (s : Str) (h : expandStep s = .ok none) :
+    expandFuel (f + 1) s = .ok s := by rw [expandFuel, h]
+
+theorem expandFuel_some (f : Nat) (s s' : Str) (h : expandStep s = .ok (some s')) :
+    expandFuel (f + 1) s = expandFuel f s' := by rw [expandFuel, h]
+
+theorem expandStep_unbalanced (pre rest : Str) (hpre : '(' ∉ pre)
+    (hopen : ∀ k, k ≤ rest.length → (rest.take k).count ')' < (rest.take k).count '(' + 1) :
+    expandStep (pre ++ '(' :: rest) = .error .value := by
+  unfold expandStep
+  rw [findChar_append_not_mem _ _ _ hpre]
+  simp only
+  have : (pre ++ '(' :: rest).drop (pre.length + 1) = rest := by
+    rw [show pre ++ '(' :: rest = (pre ++ ['(']) ++ rest by simp]
+    exact List.drop_left' (by simp)
+  rw [this, matchClose_open rest 1 _ hopen]
+
+
+/-- `n * x` for a Python string -/
+def strRepeat (n : Nat) (x : Str) : Str := (List.replicate n x).flatten
+
+theorem joinRepeat_succ (m : Nat) (x : Str) : joinRepeat (m + 1) x = strRepeat m (x ++ [',']) ++ x := by
+  induction m with
+  | zero => simp [joinRepeat, strRepeat]
+  | succ m ih =>
+    rw [joinRepeat, ih]
+    simp [strRepeat, List.replicate_succ, List.append_assoc]
+
+/-- the text before the first bracket group: no bracket, and empty or ending in a comma -/
+def okA (A : Str) : Prop := '(' ∉ A ∧ (A = [] ∨ ∃ A0, A = A0 ++ [','])
+
+theorem okA_nil : okA [] := ⟨by simp, Or.inl rfl⟩
+
+theorem okA_snoc (A t : Str) (hA : okA A) (ht : '(' ∉ t) : okA (A ++ t ++ [',']) :=
+  ⟨by simp [hA.1, ht], Or.inr ⟨A ++ t, rfl⟩⟩
+
+theorem getElem_last_snoc (A0 : Str) (x : Char) (rest : Str) :
+    (A0 ++ [x] ++ rest)[(A0 ++ [x]).length - 1]? = some x := by
+  simp
+
+/-- one turn on a plain group -/
+theorem step_plain (A inner B : Str) (hA : okA A) (hin : Bal inner) :
+    expandStep (A ++ '(' :: inner ++ ')' :: B) = .ok (some (A ++ inner ++ B)) := by
+  unfold expandStep
+  have e0 : A ++ '(' :: inner ++ ')' :: B = A ++ '(' :: (inner ++ ')' :: B) := by simp
+  rw [e0, findChar_append_not_mem _ _ _ hA.1]
+  simp only
+  have hd : (A ++ '(' :: (inner ++ ')' :: B)).drop (A.length + 1) = inner ++ ')' :: B := by
+    rw [show A ++ '(' :: (inner ++ ')' :: B) = (A ++ ['(']) ++ (inner ++ ')' :: B) by simp]
+    exact List.drop_left' (by simp)
+  rw [hd, matchClose_inner inner B _ hin]
+  simp only
+  have hcond : A.length = 0 ∨ (A ++ '(' :: (inner ++ ')' :: B))[A.length - 1]? ≠ some '*' := by
+    rcases hA.2 with rfl | ⟨A0, rfl⟩
+    · left; rfl
+    · right
+      have := getElem_last_snoc A0 ',' ('(' :: (inner ++ ')' :: B))
+      rw [this]; decide
+  simp only [hcond, if_true]
+  have h1 : (inner ++ ')' :: B).take (A.length + 1 + inner.length - (A.length + 1)) = inner := by
+    rw [show A.length + 1 + inner.length - (A.length + 1) = inner.length by omega]
+    exact List.take_left' rfl
+  have h2 : (A ++ '(' :: (inner ++ ')' :: B)).drop (A.length + 1 + inner.length + 1) = B := by
+    rw [show A ++ '(' :: (inner ++ ')' :: B) = (A ++ '(' :: inner ++ [')']) ++ B by simp]
+    exact List.drop_left' (by simp; omega)
+  have h3 : (A ++ '(' :: (inner ++ ')' :: B)).take A.length = A := List.take_left' rfl
+  rw [h1, h2, h3]
+
+
+theorem dropWhile_nil_all (p : Char → Bool) (l : Str) (h : l.dropWhile p = []) : ∀ x ∈ l, p x = true := by
+  induction l with
+  | nil => simp
+  | cons a l ih =>
+    by_cases ha : p a = true
+    · simp only [List.dropWhile_cons, ha, if_true] at h
+      intro x hx
+      rcases List.mem_cons.mp hx with rfl | hx
+      · exact ha
+      · exact ih h x hx
+    · simp [List.dropWhile_cons, ha] at h
+
+theorem tw_append (p : Char → Bool) (A R : Str) (h : ∃ x ∈ A, p x = false) :
+    (A ++ R).takeWhile p = A.takeWhile p ∧ (A ++ R).dropWhile p = A.dropWhile p ++ R := by
+  induction A with
+  | nil => simp at h
+  | cons a A ih =>
+    by_cases ha : p a = true
+    · obtain ⟨x, hx, hpx⟩ := h
+      have hx' : x ∈ A := by
+        rcases List.mem_cons.mp hx with rfl | h'
+        · rw [ha] at hpx; cases hpx
+        · exact h'
+      obtain ⟨h1, h2⟩ := ih ⟨x, hx', hpx⟩
+      simp [List.takeWhile_cons, List.dropWhile_cons, ha, h1, h2]
+    · simp [List.takeWhile_cons, List.dropWhile_cons, ha]
+
+theorem tw_digits (ds rest : Str) (hd : ds.all Char.isDigit = true) (x : Char) (hx : x.isDigit = false) :
+    (ds ++ x :: rest).takeWhile Char.isDigit = ds ∧ (ds ++ x :: rest).dropWhile Char.isDigit = x :: rest := by
+  induction ds with
+  | nil => simp [List.takeWhile_cons, List.dropWhile_cons, hx]
+  | cons d ds ih =>
+    simp only [List.all_cons, Bool.and_eq_true] at hd
+    obtain ⟨h1, h2⟩ := ih hd.2
+    simp [List.takeWhile_cons, List.dropWhile_cons, hd.1, h1, h2]
+
+theorem bracketAt_none (A R : Str) (hne : A ≠ []) (hA : okA A) (hR : ∀ c, R.head? = some c → c ≠ '(') :
+    bracketAt (A ++ R) = none := by
+  obtain ⟨hno, hlast⟩ := hA
+  rcases hlast with rfl | ⟨A0, rfl⟩
+  · exact absurd rfl hne
+  have hex : ∃ x ∈ A0 ++ [','], Char.isDigit x = false := ⟨',', by simp, by decide⟩
+  obtain ⟨h1, h2⟩ := tw_append Char.isDigit (A0 ++ [',']) R hex
+  unfold bracketAt
+  simp only [h1, h2]
+  split
+  · rfl
+  · -- the first non-digit is in A, so is (if any) the char after it; neither is '('
+    have hsuf : (A0 ++ [',']).dropWhile Char.isDigit <:+ (A0 ++ [',']) := List.dropWhile_suffix _
+    cases hD : (A0 ++ [',']).dropWhile Char.isDigit with
+    | nil =>
+      -- impossible: ',' survives
+      have := dropWhile_nil_all _ _ hD ',' (by simp)
+      exact absurd this (by decide)
+    | cons c D =>
+      rw [hD] at hsuf
+      have hmem : ∀ y ∈ c :: D, y ≠ '(' := fun y hy => by
+        intro e; subst e; exact hno (hsuf.subset hy)
+      cases D with
+      | nil =>
+        cases R with
+        | nil => simp
+        | cons r R' =>
+          have := hR r rfl
+          simp only [List.cons_append, List.nil_append]
+          split
+          · rename_i heq; simp at heq; exact absurd heq.2.1 this
+          · rfl
+      | cons d D' =>
+        have := hmem d (by simp)
+        simp only [List.cons_append]
+        split
+        · rename_i heq; simp at heq; exact absurd heq.2.1 this
+        · rfl
+
+theorem okA_tail (a : Char) (A : Str) (h : okA (a :: A)) : okA A := by
+  obtain ⟨h1, h2⟩ := h
+  refine ⟨fun hm => h1 (by simp [hm]), ?_⟩
+  rcases h2 with h2 | ⟨A0, h2⟩
+  · cases h2
+  · cases A0 with
+    | nil => simp at h2; left; exact h2.2
+    | cons b A0 => simp at h2; right; exact ⟨A0, h2.2⟩
+
+theorem bracketSearch_skip (A R : Str) (i : Nat) (hA : okA A) (hR : ∀ c, R.head? = some c → c ≠ '(') :
+    bracketSearch (A ++ R) i = bracketSearch R (i + A.length) := by
+  induction A generalizing i with
+  | nil => simp
+  | cons a A ih =>
+    have hn := bracketAt_none (a :: A) R (by simp) hA hR
+    rw [List.cons_append] at hn ⊢
+    rw [bracketSearch, hn]
+    simp only
+    rw [ih (i + 1) (okA_tail a A hA)]
+    simp; congr 1; omega
+
+theorem bracketSearch_here (ds tail : Str) (j : Nat) (hne : ds ≠ []) (hd : ds.all Char.isDigit = true) :
+    bracketSearch (ds ++ '*' :: '(' :: tail) j = some (j, parseNat ds) := by
+  obtain ⟨h1, h2⟩ := tw_digits ds ('(' :: tail) hd '*' (by decide)
+  have hat : bracketAt (ds ++ '*' :: '(' :: tail) = some ds := by
+    unfold bracketAt
+    simp only [h1, h2]
+    have : ds.isEmpty = false := by cases ds <;> simp_all
+    simp [this]
+  cases hds : ds with
+  | nil => exact absurd hds hne
+  | cons d ds' =>
+    rw [← hds]
+    have : ds ++ '*' :: '(' :: tail = d :: (ds' ++ '*' :: '(' :: tail) := by rw [hds]; rfl
+    rw [this, bracketSearch, ← this, hat]
+
+/-- one turn on a multiplied group -/
+theorem step_factor (A ds inner B : Str) (hA : okA A) (hne : ds ≠ []) (hd : ds.all Char.isDigit = true)
+    (hin : Bal inner) :
+    expandStep (A ++ ds ++ '*' :: '(' :: inner ++ ')' :: B)
+      = .ok (some (A ++ joinRepeat (parseNat ds) inner ++ B)) := by
+  have hdno : '(' ∉ ds := by
+    intro hm
+    have := List.all_eq_true.mp hd _ hm
+    exact absurd this (by decide)
+  let A1 := A ++ ds ++ ['*']
+  have hA1 : '(' ∉ A1 := by simp [A1, hA.1, hdno]
+  have e0 : A ++ ds ++ '*' :: '(' :: inner ++ ')' :: B = A1 ++ '(' :: (inner ++ ')' :: B) := by simp [A1]
+  unfold expandStep
+  rw [e0, findChar_append_not_mem _ _ _ hA1]
+  simp only
+  have hd' : (A1 ++ '(' :: (inner ++ ')' :: B)).drop (A1.length + 1) = inner ++ ')' :: B := by
+    rw [show A1 ++ '(' :: (inner ++ ')' :: B) = (A1 ++ ['(']) ++ (inner ++ ')' :: B) by simp]
+    exact List.drop_left' (by simp)
+  rw [hd', matchClose_inner inner B _ hin]
+  simp only
+  have hcond : ¬ (A1.length = 0 ∨ (A1 ++ '(' :: (inner ++ ')' :: B))[A1.length - 1]? ≠ some '*') := by
+    intro h
+    rcases h with h | h
+    · simp [A1] at h
+    · have := getElem_last_snoc (A ++ ds) '*' ('(' :: (inner ++ ')' :: B))
+      exact h this
+  simp only [hcond, if_false]
+  have hsearch : bracketSearch (A1 ++ '(' :: (inner ++ ')' :: B)) 0 = some (A.length, parseNat ds) := by
+    have e1 : A1 ++ '(' :: (inner ++ ')' :: B) = A ++ (ds ++ '*' :: '(' :: (inner ++ ')' :: B)) := by simp [A1]
+    rw [e1, bracketSearch_skip A _ 0 hA]
+    · rw [bracketSearch_here ds _ _ hne hd]; simp
+    · intro c hc
+      cases ds with
+      | nil => exact absurd rfl hne
+      | cons d ds' =>
+        simp at hc; subst hc
+        intro e
+        simp only [List.all_cons, Bool.and_eq_true] at hd
+        rw [e] at hd; exact absurd hd.1 (by decide)
+  rw [hsearch]
+  simp only
+  have h1 : (inner ++ ')' :: B).take (A1.length + 1 + inner.length - (A1.length + 1)) = inner := by
+    rw [show A1.length + 1 + inner.length - (A1.length + 1) = inner.length by omega]
+    exact List.take_left' rfl
+  have h2 : (A1 ++ '(' :: (inner ++ ')' :: B)).drop (A1.length + 1 + inner.length + 1) = B := by
+    rw [show A1 ++ '(' :: (inner ++ ')' :: B) = (A1 ++ '(' :: inner ++ [')']) ++ B by simp]
+    exact List.drop_left' (by simp; omega)
+  have h3 : (A1 ++ '(' :: (inner ++ ')' :: B)).take A.length = A := by
+    rw [show A1 ++ '(' :: (inner ++ ')' :: B) = A ++ (ds ++ '*' :: '(' :: (inner ++ ')' :: B)) by simp [A1]]
+    exact List.take_left' rfl
+  rw [h1, h2, h3]
+
+
+/-! ### joinComma -/
+
+theorem joinComma_cons (x : Str) (l : List Str) (h : l ≠ []) : joinComma (x :: l) = x ++ [','] ++ joinComma l := by
+  cases l with
+  | nil => exact absurd rfl h
+  | cons y l => rfl
+
+theorem joinComma_append (l1 l2 : List Str) (h1 : l1 ≠ []) (h2 : l2 ≠ []) :
+    joinComma (l1 ++ l2) = joinComma l1 ++ [','] ++ joinComma l2 := by
+  induction l1 with
+  | nil => exact absurd rfl h1
+  | cons x l1 ih =>
+    by_cases hl : l1 = []
+    · subst hl; simp [joinComma_cons _ _ h2, joinComma]
+    · rw [List.cons_append, joinComma_cons _ _ (by simp [hl]), ih hl, joinComma_cons _ _ hl]
+      simp [List.append_assoc]
+
+theorem joinComma_replicate (L : List Str) (hL : L ≠ []) (m : Nat) :
+    joinComma (List.replicate (m + 1) L).flatten = strRepeat m (joinComma L ++ [',']) ++ joinComma L := by
+  induction m with
+  | zero => simp [strRepeat]
+  | succ m ih =>
+    rw [List.replicate_succ, List.flatten_cons, joinComma_append _ _ hL (by
+      rw [List.replicate_succ, List.flatten_cons]; simp [hL]), ih]
+    simp [strRepeat, List.replicate_succ, List.append_assoc]
+
+theorem joinComma_noparen (l : List Str) (c : Char) (hc : c ≠ ',') (h : ∀ s ∈ l, c ∉ s) : c ∉ joinComma l := by
+  induction l with
+  | nil => simp [joinComma]
+  | cons x l ih =>
+    by_cases hl : l = []
+    · subst hl; simpa [joinComma] using h x (by simp)
+    · rw [joinComma_cons _ _ hl]
+      have := ih (fun s hs => h s (by simp [hs]))
+      have hx := h x (by simp)
+      simp [hx, this, hc]
+
+/-! ### sizes, structure of the flattening -/
+
+mutual
+  def BItem.size : BItem → Nat
+    | .atom _ => 0
+    | .group none items => 1 + BItem.sizeList items
+    | .group (some ds) items => 1 + parseNat ds * BItem.sizeList items
+  def BItem.sizeList : List BItem → Nat
+    | [] => 0
+    | x :: xs => x.size + BItem.sizeList xs
+end
+
+mutual
+  theorem flattenCode_atoms : ∀ (x : BItem), x.wf = true →
+      x.flattenCode ≠ [] ∧ ∀ s ∈ x.flattenCode, '(' ∉ s ∧ ')' ∉ s
+    | .atom s, h => by
+      simp only [BItem.wf, Bool.and_eq_true, Bool.not_eq_true', List.all_eq_true, Bool.decide_eq_true, ne_eq,
+        decide_eq_true_eq] at h
+      simp only [BItem.flattenCode]
+      refine ⟨by simp, ?_⟩
+      intro t ht; simp at ht; subst ht
+      exact ⟨fun hm => (h.2 _ hm).1.1 rfl, fun hm => (h.2 _ hm).1.2 rfl⟩
+    | .group none items, h => by
+      simp only [BItem.wf, Bool.and_eq_true, Bool.not_eq_true'] at h
+      simp only [BItem.flattenCode]
+      have hne : items ≠ [] := by intro e; subst e; simp at h
+      exact flattenCodeList_atoms items h.2 hne
+    | .group (some ds) items, h => by
+      simp only [BItem.wf, Bool.and_eq_true, Bool.not_eq_true'] at h
+      simp only [BItem.flattenCode]
+      have hne : items ≠ [] := by intro e; subst e; simp at h
+      obtain ⟨h1, h2⟩ := flattenCodeList_atoms items h.2 hne
+      by_cases hz : parseNat ds = 0
+      · simp [hz]
+      · obtain ⟨m, hm⟩ : ∃ m, parseNat ds = m + 1 := ⟨parseNat ds - 1, by omega⟩
+        simp only [hz, if_false]
+        rw [hm]
+        refine ⟨by rw [List.replicate_succ, List.flatten_cons]; simp [h1], ?_⟩
+        intro s hs
+        simp only [List.mem_flatten, List.mem_replicate] at hs
+        obtain ⟨l, ⟨-, rfl⟩, hs⟩ := hs
+        exact h2 s hs
+  theorem flattenCodeList_atoms : ∀ (xs : List BItem), BItem.wfList xs = true → xs ≠ [] →
+      BItem.flattenCodeList xs ≠ [] ∧ ∀ s ∈ BItem.flattenCodeList xs, '(' ∉ s ∧ ')' ∉ s
+    | [], _, hne => absurd rfl hne
+    | x :: xs, h, _ => by
+      simp only [BItem.wfList, Bool.and_eq_true] at h
+      simp only [BItem.flattenCodeList]
+      obtain ⟨h1, h2⟩ := flattenCode_atoms x h.1
+      refine ⟨by simp [h1], ?_⟩
+      intro s hs
+      rcases List.mem_append.mp hs with hs | hs
+      · exact h2 s hs
+      · by_cases hxs : xs = []
+        · subst hxs; simp [BItem.flattenCodeList] at hs
+        · exact (flattenCodeList_atoms xs h.2 hxs).2 s hs
+end
+
+
+theorem renderList_nil_iff (xs : List BItem) : BItem.renderList xs = [] ↔ xs = [] := by
+  cases xs <;> simp [BItem.renderList]
+
+theorem renderItems_cons (x : BItem) (xs : List BItem) (h : xs ≠ []) :
+    renderItems (x :: xs) = x.render ++ [','] ++ renderItems xs := by
+  unfold renderItems
+  rw [BItem.renderList, joinComma_cons _ _ (by rw [Ne, renderList_nil_iff]; exact h)]
+
+theorem renderItems_single (x : BItem) : renderItems [x] = x.render := by
+  simp [renderItems, BItem.renderList, joinComma]
+
+theorem digits_noparen (ds : Str) (hd : ds.all Char.isDigit = true) : ∀ x ∈ ds, x ≠ '(' ∧ x ≠ ')' := by
+  intro x hx
+  have := List.all_eq_true.mp hd x hx
+  constructor <;> (intro e; subst e; exact absurd this (by decide))
+
+mutual
+  theorem Bal_render : ∀ (x : BItem), x.wf = true → Bal x.render
+    | .atom s, h => by
+      simp only [BItem.wf, Bool.and_eq_true, Bool.not_eq_true', List.all_eq_true, ne_eq, decide_eq_true_eq] at h
+      simp only [BItem.render]
+      exact Bal_noparen s (fun c hc => ⟨(h.2 c hc).1.1, (h.2 c hc).1.2⟩)
+    | .group none items, h => by
+      simp only [BItem.wf, Bool.and_eq_true] at h
+      simp only [BItem.render]
+      have := Bal_paren _ (Bal_renderList items h.2)
+      simpa [renderItems] using this
+    | .group (some ds) items, h => by
+      simp only [BItem.wf, Bool.and_eq_true] at h
+      simp only [BItem.render]
+      have h1 := Bal_paren _ (Bal_renderList items h.2)
+      have h2 : Bal (ds ++ ['*']) := Bal_noparen _ (by
+        intro x hx
+        rcases List.mem_append.mp hx with hx | hx
+        · exact digits_noparen ds h.1.1.2 x hx
+        · simp at hx; subst hx; exact ⟨by decide, by decide⟩)
+      have := Bal_append _ _ h2 h1
+      simpa [renderItems, List.append_assoc] using this
+  theorem Bal_renderList : ∀ (xs : List BItem), BItem.wfList xs = true → Bal (renderItems xs)
+    | [], _ => by simpa [renderItems, BItem.renderList, joinComma] using Bal_nil
+    | x :: xs, h => by
+      simp only [BItem.wfList, Bool.and_eq_true] at h
+      by_cases hxs : xs = []
+      · subst hxs; rw [renderItems_single]; exact Bal_render x h.1
+      · rw [renderItems_cons x xs hxs]
+        exact Bal_append _ _ (Bal_append _ _ (Bal_render x h.1) (Bal_char ',' (by decide) (by decide)))
+          (Bal_renderList xs h.2)
+end
+
+theorem strRepeat_succ (m : Nat) (Z : Str) : strRepeat (m + 1) Z = Z ++ strRepeat m Z := by
+  simp [strRepeat, List.replicate_succ]
+
+/-- running the same expansion on every copy of a repeated group -/
+theorem rep_copies (X Y : Str) (c : Nat) (hY : '(' ∉ Y)
+    (H : ∀ (A B : Str) (f : Nat), okA A → expandFuel (f + c) (A ++ X ++ B) = expandFuel f (A ++ Y ++ B)) :
+    ∀ (m : Nat) (A B : Str) (f : Nat), okA A →
+      expandFuel (f + (m + 1) * c) (A ++ strRepeat m (X ++ [',']) ++ X ++ B)
+        = expandFuel f (A ++ strRepeat m (Y ++ [',']) ++ Y ++ B) := by
+  intro m
+  induction m with
+  | zero => intro A B f hA; simpa [strRepeat] using H A B f hA
+  | succ m ih =>
+    intro A B f hA
+    rw [strRepeat_succ, strRepeat_succ]
+    have e1 : A ++ (X ++ [','] ++ strRepeat m (X ++ [','])) ++ X ++ B
+        = A ++ X ++ ([','] ++ strRepeat m (X ++ [',']) ++ X ++ B) := by simp [List.append_assoc]
+    have e2 : f + (m + 1 + 1) * c = (f + (m + 1) * c) + c := by ring
+    rw [e1, e2, H A _ _ hA]
+    have e3 : A ++ Y ++ ([','] ++ strRepeat m (X ++ [',']) ++ X ++ B)
+        = (A ++ Y ++ [',']) ++ strRepeat m (X ++ [',']) ++ X ++ B := by simp [List.append_assoc]
+    rw [e3, ih _ B f (okA_snoc A Y hA hY)]
+    simp [List.append_assoc]
+
+mutual
+  theorem KL_item : ∀ (x : BItem), x.wf = true → ∀ (A B : Str) (f : Nat), okA A →
+      expandFuel (f + x.size) (A ++ x.render ++ B) = expandFuel f (A ++ joinComma x.flattenCode ++ B)
+    | .atom s, _, A, B, f, _ => by
+      simp [BItem.size, BItem.render, BItem.flattenCode, joinComma]
+    | .group none items, h, A, B, f, hA => by
+      have hw := h
+      simp only [BItem.wf, Bool.and_eq_true, Bool.not_eq_true'] at hw
+      have hne : items ≠ [] := by intro e; subst e; simp at hw
+      simp only [BItem.size, BItem.render, BItem.flattenCode]
+      have e1 : A ++ (['('] ++ joinComma (BItem.renderList items) ++ [')']) ++ B
+          = A ++ '(' :: renderItems items ++ ')' :: B := by simp [renderItems, List.append_assoc]
+      have e2 : f + (1 + BItem.sizeList items) = (f + BItem.sizeList items) + 1 := by ring
+      rw [e1, e2, expandFuel_some _ _ _ (step_plain A _ B hA (Bal_renderList items hw.2))]
+      exact KL_list items hw.2 hne A B f hA
+    | .group (some ds) items, h, A, B, f, hA => by
+      have hw := h
+      simp only [BItem.wf, Bool.and_eq_true, Bool.not_eq_true'] at hw
+      have hne : items ≠ [] := by intro e; subst e; simp at hw
+      have hds : ds ≠ [] := by intro e; subst e; simp at hw
+      simp only [BItem.size, BItem.render, BItem.flattenCode]
+      have e1 : A ++ (ds ++ ['*', '('] ++ joinComma (BItem.renderList items) ++ [')']) ++ B
+          = A ++ ds ++ '*' :: '(' :: renderItems items ++ ')' :: B := by simp [renderItems, List.append_assoc]
+      have hstep := step_factor A ds _ B hA hds hw.1.1.2 (Bal_renderList items hw.2)
+      by_cases hz : parseNat ds = 0
+      · simp only [hz, if_true, Nat.zero_mul, Nat.add_zero]
+        rw [e1, expandFuel_some _ _ _ hstep, hz]
+        simp [joinRepeat, joinComma]
+      · obtain ⟨m, hm⟩ : ∃ m, parseNat ds = m + 1 := ⟨parseNat ds - 1, by omega⟩
+        simp only [hz, if_false]
+        have e2 : f + (1 + parseNat ds * BItem.sizeList items) = (f + (m + 1) * BItem.sizeList items) + 1 := by
+          rw [hm]; ring
+        rw [e1, e2, expandFuel_some _ _ _ hstep, hm, joinRepeat_succ]
+        obtain ⟨hfl, hat⟩ := flattenCodeList_atoms items hw.2 hne
+        have hY : '(' ∉ joinComma (BItem.flattenCodeList items) :=
+          joinComma_noparen _ '(' (by decide) (fun s hs => (hat s hs).1)
+        have e3 : A ++ (strRepeat m (renderItems items ++ [',']) ++ renderItems items) ++ B
+            = A ++ strRepeat m (renderItems items ++ [',']) ++ renderItems items ++ B := by simp [List.append_assoc]
+        rw [e3, rep_copies (renderItems items) (joinComma (BItem.flattenCodeList items)) (BItem.sizeList items) hY
+          (fun A B f hA => KL_list items hw.2 hne A B f hA) m A B f hA]
+        rw [joinComma_replicate _ hfl m]
+        simp [List.append_assoc]
+  theorem KL_list : ∀ (xs : List BItem), BItem.wfList xs = true → xs ≠ [] → ∀ (A B : Str) (f : Nat), okA A →
+      expandFuel (f + BItem.sizeList xs) (A ++ renderItems xs ++ B)
+        = expandFuel f (A ++ joinComma (BItem.flattenCodeList xs) ++ B)
+    | [], _, hne, _, _, _, _ => absurd rfl hne
+    | x :: xs, h, _, A, B, f, hA => by
+      have hw := h
+      simp only [BItem.wfList, Bool.and_eq_true] at hw
+      by_cases hxs : xs = []
+      · subst hxs
+        rw [renderItems_single]
+        simp only [BItem.sizeList, BItem.flattenCodeList, List.append_nil, Nat.add_zero]
+        exact KL_item x hw.1 A B f hA
+      · obtain ⟨hx1, hx2⟩ := flattenCode_atoms x hw.1
+        obtain ⟨hl1, -⟩ := flattenCodeList_atoms xs hw.2 hxs
+        rw [renderItems_cons x xs hxs]
+        simp only [BItem.sizeList, BItem.flattenCodeList]
+        rw [joinComma_append _ _ hx1 hl1]
+        have e1 : A ++ (x.render ++ [','] ++ renderItems xs) ++ B = A ++ x.render ++ ([','] ++ renderItems xs ++ B) := by
+          simp [List.append_assoc]
+        have e2 : f + (x.size + BItem.sizeList xs) = (f + BItem.sizeList xs) + x.size := by ring
+        rw [e1, e2, KL_item x hw.1 A _ _ hA]
+        have hY : '(' ∉ joinComma x.flattenCode := joinComma_noparen _ '(' (by decide) (fun s hs => (hx2 s hs).1)
+        have e3 : A ++ joinComma x.flattenCode ++ ([','] ++ renderItems xs ++ B)
+            = (A ++ joinComma x.flattenCode ++ [',']) ++ renderItems xs ++ B := by simp [List.append_assoc]
+        rw [e3, KL_list xs hw.2 hxs _ B f (okA_snoc A _ hA hY)]
+        simp [List.append_assoc]
+end
+
+
+theorem foldl_digits_lt (ds : Str) (hd : ds.all Char.isDigit = true) (acc : Nat) :
+    ds.foldl (fun a c => a * 10 + (c.toNat - 48)) acc < (acc + 1) * 10 ^ ds.length := by
+  induction ds generalizing acc with
+  | nil => simp
+  | cons d ds ih =>
+    simp only [List.all_cons, Bool.and_eq_true] at hd
+    have hdig := isDigit_toNat d hd.1
+    have := ih hd.2 (acc * 10 + (d.toNat - 48))
+    simp only [List.foldl_cons, List.length_cons, Nat.pow_succ]
+    calc _ < (acc * 10 + (d.toNat - 48) + 1) * 10 ^ ds.length := this
+      _ ≤ ((acc + 1) * 10) * 10 ^ ds.length := Nat.mul_le_mul_right _ (by omega)
+      _ = (acc + 1) * (10 ^ ds.length * 10) := by ring
+
+theorem parseNat_lt (ds : Str) (hd : ds.all Char.isDigit = true) : parseNat ds < 10 ^ ds.length := by
+  have := foldl_digits_lt ds hd 0
+  simpa [parseNat] using this
+
+theorem pow_add_le (a b : Nat) : 10 ^ a + 10 ^ b ≤ 10 ^ (a + b + 1) := by
+  have ha : 1 ≤ 10 ^ a := Nat.one_le_pow _ _ (by omega)
+  have hb : 1 ≤ 10 ^ b := Nat.one_le_pow _ _ (by omega)
+  rw [Nat.pow_succ, Nat.pow_add]
+  nlinarith
+
+mutual
+  theorem size_bound : ∀ (x : BItem), x.wf = true → x.size + 1 ≤ 10 ^ x.render.length
+    | .atom s, _ => by simp [BItem.size]; exact Nat.one_le_pow _ _ (by omega)
+    | .group none items, h => by
+      simp only [BItem.wf, Bool.and_eq_true] at h
+      have := sizeList_bound items h.2
+      simp only [BItem.size, BItem.render]
+      have e : (['('] ++ joinComma (BItem.renderList items) ++ [')']).length = (renderItems items).length + 2 := by
+        simp [renderItems]
+      rw [e, Nat.pow_add]
+      omega
+    | .group (some ds) items, h => by
+      simp only [BItem.wf, Bool.and_eq_true, Bool.not_eq_true'] at h
+      have hc := sizeList_bound items h.2
+      have hn := parseNat_lt ds h.1.1.2
+      simp only [BItem.size, BItem.render]
+      have e : (ds ++ ['*', '('] ++ joinComma (BItem.renderList items) ++ [')']).length
+          = ds.length + (renderItems items).length + 3 := by
+        simp [renderItems]; omega
+      rw [e, Nat.pow_add, Nat.pow_add]
+      have hX : 1 ≤ 10 ^ ds.length := Nat.one_le_pow _ _ (by omega)
+      have hm : parseNat ds ≤ 10 ^ ds.length := by omega
+      have hmul : parseNat ds * BItem.sizeList items ≤ 10 ^ ds.length * 10 ^ (renderItems items).length :=
+        Nat.mul_le_mul hm (by omega)
+      have hY : 1 ≤ 10 ^ ds.length * 10 ^ (renderItems items).length := Nat.mul_pos hX (by omega)
+      omega
+  theorem sizeList_bound : ∀ (xs : List BItem), BItem.wfList xs = true →
+      BItem.sizeList xs + 1 ≤ 10 ^ (renderItems xs).length
+    | [], _ => by simp [BItem.sizeList, renderItems, BItem.renderList, joinComma]
+    | x :: xs, h => by
+      simp only [BItem.wfList, Bool.and_eq_true] at h
+      have h1 := size_bound x h.1
+      have h2 := sizeList_bound xs h.2
+      by_cases hxs : xs = []
+      · subst hxs; rw [renderItems_single]; simpa [BItem.sizeList] using h1
+      · rw [renderItems_cons x xs hxs]
+        simp only [BItem.sizeList, List.length_append, List.length_singleton]
+        have := pow_add_le x.render.length (renderItems xs).length
+        rw [show x.render.length + 1 + (renderItems xs).length = x.render.length + (renderItems xs).length + 1 by omega]
+        omega
+end
+
+theorem expandStep_noparen (s : Str) (h : '(' ∉ s) : expandStep s = .ok none := by
+  unfold expandStep; rw [findChar_none _ _ h]
+
+theorem expandBrackets_render' (items : List BItem) (hne : items ≠ []) (hwf : BItem.wfList items = true) :
+    expandBrackets (renderItems items) = .ok (joinComma (BItem.flattenCodeList items)) := by
+  unfold expandBrackets
+  have hb := sizeList_bound items hwf
+  obtain ⟨f, hf⟩ : ∃ f, 10 ^ (renderItems items).length + 1 = (f + 1) + BItem.sizeList items :=
+    ⟨10 ^ (renderItems items).length - BItem.sizeList items, by omega⟩
+  have := KL_list items hwf hne [] [] (f + 1) okA_nil
+  simp only [List.nil_append, List.append_nil] at this
+  rw [hf, this]
+  obtain ⟨-, hat⟩ := flattenCodeList_atoms items hwf hne
+  exact expandFuel_none _ _ (expandStep_noparen _ (joinComma_noparen _ '(' (by decide) (fun s hs => (hat s hs).1)))
+
+
+theorem filter_flatten_replicate (n : Nat) (l : List Str) :
+    (List.replicate n l).flatten.filter (fun s => !s.isEmpty) = (List.replicate n (l.filter fun s => !s.isEmpty)).flatten := by
+  induction n with
+  | zero => simp
+  | succ n ih => simp [List.replicate_succ, List.filter_append, ih]
+
+mutual
+  /-- dropping the empty pieces of the code's output gives the specified flattening -/
+  theorem flattenCode_filter_item : ∀ (x : BItem), x.wf = true →
+      x.flattenCode.filter (fun s => !s.isEmpty) = x.flattenSpec
+    | .atom s, h => by
+      simp only [BItem.wf, Bool.and_eq_true] at h
+      simp [BItem.flattenCode, BItem.flattenSpec, h.1]
+    | .group none items, h => by
+      simp only [BItem.wf, Bool.and_eq_true] at h
+      simp only [BItem.flattenCode, BItem.flattenSpec]
+      exact flattenCode_filter_list items h.2
+    | .group (some ds) items, h => by
+      simp only [BItem.wf, Bool.and_eq_true] at h
+      simp only [BItem.flattenCode, BItem.flattenSpec]
+      by_cases hz : parseNat ds = 0
+      · simp [hz]
+      · simp only [hz, if_false]
+        rw [filter_flatten_replicate, flattenCode_filter_list items h.2]
+  theorem flattenCode_filter_list : ∀ (xs : List BItem), BItem.wfList xs = true →
+      (BItem.flattenCodeList xs).filter (fun s => !s.isEmpty) = BItem.flattenSpecList xs
+    | [], _ => by simp [BItem.flattenCodeList, BItem.flattenSpecList]
+    | x :: xs, h => by
+      simp only [BItem.wfList, Bool.and_eq_true] at h
+      simp only [BItem.flattenCodeList, BItem.flattenSpecList, List.filter_append]
+      rw [flattenCode_filter_item x h.1, flattenCode_filter_list xs h.2]
+end
+
+mutual
+  theorem flattenCode_nocomma_item : ∀ (x : BItem), x.wf = true → ∀ s ∈ x.flattenCode, ',' ∉ s
+    | .atom s, h => by
+      simp only [BItem.wf, Bool.and_eq_true, Bool.not_eq_true', List.all_eq_true, ne_eq, decide_eq_true_eq] at h
+      intro t ht; simp [BItem.flattenCode] at ht; subst ht
+      exact fun hm => (h.2 _ hm).2 rfl
+    | .group none items, h => by
+      simp only [BItem.wf, Bool.and_eq_true] at h
+      simp only [BItem.flattenCode]
+      exact flattenCode_nocomma_list items h.2
+    | .group (some ds) items, h => by
+      simp only [BItem.wf, Bool.and_eq_true] at h
+      simp only [BItem.flattenCode]
+      by_cases hz : parseNat ds = 0
+      · simp [hz]
+      · simp only [hz, if_false]
+        intro s hs
+        simp only [List.mem_flatten, List.mem_replicate] at hs
+        obtain ⟨l, ⟨-, rfl⟩, hs⟩ := hs
+        exact flattenCode_nocomma_list items h.2 s hs
+  theorem flattenCode_nocomma_list : ∀ (xs : List BItem), BItem.wfList xs = true →
+      ∀ s ∈ BItem.flattenCodeList xs, ',' ∉ s
+    | [], _ => by simp [BItem.flattenCodeList]
+    | x :: xs, h => by
+      simp only [BItem.wfList, Bool.and_eq_true] at h
+      simp only [BItem.flattenCodeList]
+      intro s hs
+      rcases List.mem_append.mp hs with hs | hs
+      · exact flattenCode_nocomma_item x h.1 s hs
+      · exact flattenCode_nocomma_list xs h.2 s hs
+end
+
+theorem splitOnChar_nocomma (x : Str) (h : ',' ∉ x) : splitOnChar ',' x = [x] := by
+  induction x with
+  | nil => rfl
+  | cons c x ih =>
+    have hc : c ≠ ',' := by intro e; exact h (by simp [e])
+    have hx : ',' ∉ x := by intro e; exact h (by simp [e])
+    simp [splitOnChar, hc, ih hx]
+
+theorem splitOnChar_append (x rest : Str) (h : ',' ∉ x) :
+    splitOnChar ',' (x ++ ',' :: rest) = x :: splitOnChar ',' rest := by
+  induction x with
+  | nil => simp [splitOnChar]
+  | cons c x ih =>
+    have hc : c ≠ ',' := by intro e; exact h (by simp [e])
+    have hx : ',' ∉ x := by intro e; exact h (by simp [e])
+    simp [splitOnChar, hc, ih hx]
+
+/-- `s.split(',')` undoes `','.join(l)` for pieces without a comma -/
+theorem splitOnChar_joinComma (l : List Str) (hne : l ≠ []) (h : ∀ s ∈ l, ',' ∉ s) :
+    splitOnChar ',' (joinComma l) = l := by
+  induction l with
+  | nil => exact absurd rfl hne
+  | cons x l ih =>
+    by_cases hl : l = []
+    · subst hl; simpa [joinComma] using splitOnChar_nocomma x (h x (by simp))
+    · rw [joinComma_cons _ _ hl, List.append_assoc, List.singleton_append,
+        splitOnChar_append x _ (h x (by simp)), ih hl (fun s hs => h s (by simp [hs]))]
+
+theorem expandBrackets_unbalanced' (pre rest : Str) (hpre : '(' ∉ pre)
+    (hopen : ∀ k, k ≤ rest.length → (rest.take k).count ')' < (rest.take k).count '(' + 1) :
+    expandBrackets (pre ++ '(' :: rest) = .error .value := by
+  unfold expandBrackets
+  exact expandFuel_error _ _ _ (expandStep_unbalanced pre rest hpre hopen)
+
+theorem expandBrackets_unbalanced_after' (items : List BItem) (hne : items ≠ []) (hwf : BItem.wfList items = true) (rest : Str)
+    (hopen : ∀ k, k ≤ rest.length → (rest.take k).count ')' < (rest.take k).count '(' + 1) :
+    expandBrackets (renderItems items ++ ',' :: '(' :: rest) = .error .value := by
+  unfold expandBrackets
+  have hb := sizeList_bound items hwf
+  have hle : 10 ^ (renderItems items).length ≤ 10 ^ (renderItems items ++ ',' :: '(' :: rest).length :=
+    Nat.pow_le_pow_right (by omega) (by simp)
+  obtain ⟨f, hf⟩ : ∃ f, 10 ^ (renderItems items ++ ',' :: '(' :: rest).length + 1 = (f + 1) + BItem.sizeList items :=
+    ⟨10 ^ (renderItems items ++ ',' :: '(' :: rest).length - BItem.sizeList items, by omega⟩
+  have := KL_list items hwf hne [] (',' :: '(' :: rest) (f + 1) okA_nil
+  simp only [List.nil_append] at this
+  rw [hf, this]
+  obtain ⟨-, hat⟩ := flattenCodeList_atoms items hwf hne
+  have hJ : '(' ∉ joinComma (BItem.flattenCodeList items) ++ [','] := by
+    have := joinComma_noparen _ '(' (by decide) (fun s hs => (hat s hs).1)
+    simp [this]
+  have e : joinComma (BItem.flattenCodeList items) ++ ',' :: '(' :: rest
+      = (joinComma (BItem.flattenCodeList items) ++ [',']) ++ '(' :: rest := by simp
+  rw [e]
+  exact expandFuel_error _ _ _ (expandStep_unbalanced _ rest hJ hopen)
+
 
 end BM.C05
